@@ -63,6 +63,7 @@ func H_C01_adjust2qb() { rhAdjustRun(instance(), []int{2, 1}, 1) }
 
 // H_C01_adjust2: two plugins, <=2 items each, every item family (instance = family).
 //verif:property C01
+//verif:thorough-instances 0 2 3 4 5 6 7 8 9 10 11 12 13 14 15 16 17 18 19 20 21 22 23 24 25 26 27 28
 //verif:instances 29
 //verif:tier thorough
 //verif:expect-cover collision
@@ -70,6 +71,7 @@ func H_C01_adjust2() { rhAdjustRun(instance(), []int{2, 2}, 1) }
 
 // H_C01_adjust3: three plugins (1,2,1 items), every item family.
 //verif:property C01
+//verif:thorough-instances 2 3 4 5 6 7 8 9 10 11 12 13 14 15 16 17 18 19 20 21 22 23 24 25 26 27 28
 //verif:instances 29
 //verif:tier thorough
 //verif:expect-cover collision
@@ -91,6 +93,7 @@ func H_C02_adjust3q() { rhAdjustRun(instance(), []int{1, 1, 1}, 2) }
 
 // H_C02_adjust2: two plugins, <=2 items each.
 //verif:property C02
+//verif:thorough-instances 2 3 4 5 6 7 8 9 10 11 12 13 14 15 16 17 18 19 20 21 22 23 24 25 26 27 28
 //verif:instances 29
 //verif:tier thorough
 //verif:expect-cover conflict-free
@@ -98,6 +101,7 @@ func H_C02_adjust2() { rhAdjustRun(instance(), []int{2, 2}, 2) }
 
 // H_C02_adjust3: three plugins (1,2,1 items): includes set / remove / set-again chains.
 //verif:property C02
+//verif:thorough-instances 2 3 4 5 6 7 8 9 10 11 12 13 14 15 16 17 18 19 20 21 22 23 24 25 26 27 28
 //verif:instances 29
 //verif:tier thorough
 //verif:expect-cover conflict-free
@@ -115,6 +119,7 @@ func H_C01_update2() {
 
 // H_C01_update3: three plugins, same family, all request kinds.
 //verif:property C01
+//verif:thorough-instances 2 3 4 5 6 7 8 9 10 11 12 13 14 15 16 17 18 19 22 23 24 25 26 27 28 29 30 31 32 33 34 35 36 37 38 39 42 43 44 45 46 47 48 49 50 51 52 53 54 55 56 57 58 59
 //verif:instances 60
 //verif:tier thorough
 //verif:expect-cover collision
@@ -146,6 +151,7 @@ func H_C02_update2sameq() {
 
 // H_C02_update2: as update2q with <=2 items per plugin.
 //verif:property C02
+//verif:thorough-instances 2 3 4 5 6 7 8 9 10 11 12 13 14 15 16 17 18 19 22 23 24 25 26 27 28 29 30 31 32 33 34 35 36 37 38 39 42 43 44 45 46 47 48 49 50 51 52 53 54 55 56 57 58 59
 //verif:instances 60
 //verif:tier thorough
 //verif:expect-cover conflict-free
@@ -156,6 +162,7 @@ func H_C02_update2() {
 
 // H_C02_update2same: two plugins, same family, <=2 items, disjoint keys/targets must not conflict.
 //verif:property C02
+//verif:thorough-instances 2 3 4 5 6 7 8 9 10 11 12 13 14 15 16 17 18 19 22 23 24 25 26 27 28 29 30 31 32 33 34 35 36 37 38 39 42 43 44 45 46 47 48 49 50 51 52 53 54 55 56 57 58 59
 //verif:instances 60
 //verif:tier thorough
 //verif:expect-cover conflict-free
